@@ -268,7 +268,16 @@ def run(ctx):
 
     # ---- built-in specs (ties C15 to the specs C16 covers)
     bmism = []
-    for (name, sp, regs, cids, tyn, ls) in builtin_cases(nn, pt):
+    builtin_unreadable = None
+    try:
+        bcases = builtin_cases(nn, pt)
+        for (name, sp, regs, cids, tyn, ls) in bcases:
+            assert all(isinstance(t, type) for t in sp.data), 'CostSpec.data is not keyed by layer types'
+    except Exception as e:     # the registrations of the built-in specs are read from CostSpec.data (internal representation)
+        bcases = []
+        builtin_unreadable = '%s: %s' % (type(e).__name__, e)
+        ctx.notes.append('built-in specification stream skipped, CostSpec.data could not be read back: ' + builtin_unreadable)
+    for (name, sp, regs, cids, tyn, ls) in bcases:
         ty = getattr(nn, tyn)
         try:
             fn = sp[(ty, ls)]
@@ -322,20 +331,37 @@ def run(ctx):
                           'conv_dw_constraint / conv_3_constraint on %s %s give %s, the documented definitions give %s' % (tyn, ls, got, exp))
             continue
         ty = getattr(nn, tyn)
-        sp = cs.CostSpec(default_behavior='fail')
-        f0, f1, f2 = (lambda s_: 0), (lambda s_: 1), (lambda s_: 2)
-        sp[(ty, None)] = f0
-        sp[(ty, pt.conv_dw_constraint)] = f1
-        sp[(ty, pt.conv_3_constraint)] = f2
-        try:
-            o = {id(f0): 10, id(f1): 11, id(f2): 12}.get(id(sp[(ty, ls)]), -3)
-        except KeyError:
-            o = -2
-        want = -2 if (exp[0] and exp[1]) else 11 if exp[0] else 12 if exp[1] else 10
-        if o != want:
-            ctx.violation('lookup-differs-from-rule', {'case': {'regs': [(tyn, None, 10), (tyn, 0, 11), (tyn, 1, 12)], 'ty': tyn, 'spec': ls, 'sat': [i for i, b in enumerate(exp) if b], 'default': 'fail'},
-                                                       'impl_outcome': o, 'rule_outcome': want},
-                          'lookup for %s %s returned %s, the documented rule gives %s (10 generic, 11 depthwise, 12 3x3, -2 conflict)' % (tyn, ls, o, want))
+        # the same lookups through the library's own pre-defined (pattern, constraint) pairs (README "Patterns" table):
+        # ConvNdGeneric / ConvNdDW / Conv1d3 / Conv2d3x3 must denote the documented patterns too
+        named = {'Conv1d': ('Conv1dGeneric', 'Conv1dDW', 'Conv1d3'), 'Conv2d': ('Conv2dGeneric', 'Conv2dDW', 'Conv2d3x3')}.get(tyn)
+        variants = [('functions', (ty, None), (ty, pt.conv_dw_constraint), (ty, pt.conv_3_constraint))]
+        if named is not None:
+            pg, pd, p3 = (getattr(pt, nm) for nm in named)
+            ctx.corr += 1
+            gotn = (pg[0] is ty and pg[1] is None, pd[0] is ty and bool(pd[1](ls)), p3[0] is ty and bool(p3[1](ls)))
+            if gotn != (True,) + exp:
+                ctx.violation('predefined-pattern-differs-from-documented-definition', {'case': {'type': tyn, 'layer_spec': ls, 'patterns': named}, 'impl(generic,dw,3x3)': gotn, 'documented': (True,) + exp},
+                              'the pre-defined patterns %s on %s %s accept (generic, dw, 3x3) = %s, the documented definitions give %s' % (named, tyn, ls, gotn, (True,) + exp))
+                continue
+            variants.append(('predefined-patterns', pg, pd, p3))
+        for vname, kg, kd, k3 in variants:
+            for perm in ((0, 1, 2), (2, 1, 0), (1, 2, 0)):
+                sp = cs.CostSpec(default_behavior='fail')
+                f0, f1, f2 = (lambda s_: 0), (lambda s_: 1), (lambda s_: 2)
+                items = [(kg, f0), (kd, f1), (k3, f2)]
+                for i in perm:
+                    sp[items[i][0]] = items[i][1]
+                ctx.corr += 1
+                try:
+                    o = {id(f0): 10, id(f1): 11, id(f2): 12}.get(id(sp[(ty, ls)]), -3)
+                except KeyError:
+                    o = -2
+                want = -2 if (exp[0] and exp[1]) else 11 if exp[0] else 12 if exp[1] else 10
+                if o != want:
+                    ctx.violation('lookup-differs-from-rule', {'case': {'regs': [(tyn, None, 10), (tyn, 0, 11), (tyn, 1, 12)], 'registered_through': vname, 'registration_order': perm, 'ty': tyn, 'spec': ls,
+                                                                        'sat': [i for i, b in enumerate(exp) if b], 'default': 'fail'},
+                                                               'impl_outcome': o, 'rule_outcome': want},
+                                  'lookup for %s %s (registered through the %s, order %s) returned %s, the documented rule gives %s (10 generic, 11 depthwise, 12 3x3, -2 conflict)' % (tyn, ls, vname, perm, o, want))
 
     # ---- (d2) a user sub-class of a torch layer is a layer type of its own: patterns registered for the sub-class never answer
     #           lookups for the parent type (and vice versa), whatever the registration order
@@ -344,10 +370,25 @@ def run(ctx):
 
     class MyLinear(nn.Linear):
         pass
-    for parent, child, ls in ((nn.Conv1d, CausalConv1d, {'in_channels': 3, 'out_channels': 4, 'groups': 1, 'kernel_size': (3,)}),
-                              (nn.Conv1d, CausalConv1d, {'in_channels': 4, 'out_channels': 4, 'groups': 4, 'kernel_size': (5,)}),
-                              (nn.Linear, MyLinear, {'in_features': 8, 'out_features': 4})):
-        pats = [(parent, None, 1), (child, None, 2)] + ([(parent, pt.conv_3_constraint, 3), (child, pt.conv_3_constraint, 4), (child, pt.conv_dw_constraint, 5)] if parent is nn.Conv1d else [])
+    # ... and so is a DIFFERENT class that merely has the same bare name (torch.ao.nn.quantized.Conv2d vs nn.Conv2d, a user's
+    # own `class Conv1d`): a sub-class and an unrelated module class named like the torch layer
+    SameNameSub = type('Conv1d', (nn.Conv1d,), {})
+    SameNameOther = type('Linear', (nn.Module,), {})
+
+    def tlabel(t):
+        return '%s.%s' % (t.__module__, t.__qualname__)
+    pairs = [(nn.Conv1d, CausalConv1d, {'in_channels': 3, 'out_channels': 4, 'groups': 1, 'kernel_size': (3,)}),
+             (nn.Conv1d, CausalConv1d, {'in_channels': 4, 'out_channels': 4, 'groups': 4, 'kernel_size': (5,)}),
+             (nn.Linear, MyLinear, {'in_features': 8, 'out_features': 4}),
+             (nn.Conv1d, SameNameSub, {'in_channels': 4, 'out_channels': 4, 'groups': 4, 'kernel_size': (3,)}),
+             (nn.Linear, SameNameOther, {'in_features': 8, 'out_features': 4})]
+    try:
+        import torch.ao.nn.quantized as nnq
+        pairs.append((nn.Conv2d, nnq.Conv2d, {'in_channels': 4, 'out_channels': 4, 'groups': 1, 'kernel_size': (3, 3)}))
+    except Exception:
+        pass
+    for parent, child, ls in pairs:
+        pats = [(parent, None, 1), (child, None, 2)] + ([(parent, pt.conv_3_constraint, 3), (child, pt.conv_3_constraint, 4), (child, pt.conv_dw_constraint, 5)] if parent in (nn.Conv1d, nn.Conv2d) else [])
         for k in range(1, len(pats) + 1):
             for sel in itertools.permutations(pats, k):
                 for default in ('zero', 'fail'):
@@ -365,13 +406,15 @@ def run(ctx):
                             got = next((tg for tg, f in fns.items() if f is fn), -1 if fn is sp.default else -3)
                         except KeyError:
                             got = -2
-                        ctx.case(('subclass', ty.__name__, tuple((t.__name__, getattr(c, '__name__', None), tag) for t, c, tag in sel), default), nontrivial=True, kind='subclass-types')
+                        ctx.case(('subclass', tlabel(ty), tuple((tlabel(t), getattr(c, '__name__', None), tag) for t, c, tag in sel), default), nontrivial=True,
+                                 kind='same-name-types' if parent.__name__ == child.__name__ else 'subclass-types')
                         ctx.corr += 1
                         if got != want:
-                            ctx.violation('lookup-differs-from-rule:sub-class-of-a-layer-type', {'registrations': [(t.__name__, getattr(c, '__name__', None), tag) for t, c, tag in sel],
-                                                                                               'lookup_type': ty.__name__, 'layer_spec': ls, 'default': default, 'impl_outcome': got, 'rule_outcome': want},
+                            ctx.violation('lookup-differs-from-rule:' + ('other-class-of-the-same-name' if parent.__name__ == child.__name__ else 'sub-class-of-a-layer-type'),
+                                          {'registrations': [(tlabel(t), getattr(c, '__name__', None), tag) for t, c, tag in sel],
+                                           'lookup_type': tlabel(ty), 'layer_spec': ls, 'default': default, 'impl_outcome': got, 'rule_outcome': want},
                                           'with registrations %s the lookup for %s %s returned %s, the rule (patterns of the layer\'s own type only) gives %s'
-                                          % ([(t.__name__, getattr(c, '__name__', None), tag) for t, c, tag in sel], ty.__name__, ls, got, want))
+                                          % ([(tlabel(t), getattr(c, '__name__', None), tag) for t, c, tag in sel], tlabel(ty), ls, got, want))
 
     # ---- (e) registrations interleaved with lookups on one CostSpec object: every lookup must equal the lookup on a
     #          fresh object with the registrations made so far (and the model on that prefix)
@@ -404,6 +447,9 @@ def run(ctx):
                           'Props/C15.v no longer checks', no_input=True)
         elif not model_ok:
             ctx.violation('model-eval-broken', {'notes': ctx.notes}, 'the model could not be evaluated', no_input=True)
+        elif builtin_unreadable:
+            ctx.violation('correspondence-broken', {'correspondence': 'registrations of the built-in specifications read back from CostSpec.data', 'error': builtin_unreadable},
+                          'the registrations of the built-in specifications can no longer be read back (%s) and no other stream found a failing input' % builtin_unreadable, no_input=True)
         elif mism:
             c, o, m = mism[0]
             ctx.violation('correspondence-broken', {'case': {k: v for k, v in c.items() if k != 'group'}, 'impl_outcome': o, 'model_outcome': m, 'n_mismatches': len(mism),
@@ -415,12 +461,61 @@ def run(ctx):
 def replay(r):
     torch, nn, cs, pt = _env()
     c = r.get('case')
+    if not c and 'registrations' in r and 'lookup_type' in r:
+        # sub-class / same-name streams: rebuild the classes from their labels
+        import importlib
+        cache = {}
+
+        def cls(label):
+            if label not in cache:
+                mod, _, name = label.rpartition('.')
+                name = name.split('.')[-1]
+                if mod.startswith('torch'):
+                    cache[label] = getattr(importlib.import_module(mod), name)
+                else:
+                    base = {'Conv1d': nn.Conv1d, 'CausalConv1d': nn.Conv1d, 'MyLinear': nn.Linear}.get(name, nn.Module)
+                    cache[label] = type(name, (base,), {})
+            return cache[label]
+        ls = {k: (tuple(v) if isinstance(v, list) else v) for k, v in r['layer_spec'].items()}
+        sp = cs.CostSpec(default_behavior=r['default'])
+        fns = {}
+        sel = [(cls(t), None if c_ is None else getattr(pt, c_), tag) for (t, c_, tag) in r['registrations']]
+        for (t, c_, tag) in sel:
+            fns[tag] = (lambda tag: (lambda s_: tag))(tag)
+            sp[(t, c_)] = fns[tag]
+        ty = cls(r['lookup_type'])
+        sat = [tag for (t, c_, tag) in sel if t is ty and c_ is not None and c_(ls)]
+        un = [tag for (t, c_, tag) in sel if t is ty and c_ is None]
+        want = -2 if len(sat) >= 2 else sat[0] if sat else un[-1] if un else -1
+        try:
+            fn = sp[(ty, ls)]
+            got = next((tg for tg, f in fns.items() if f is fn), -1 if fn is sp.default else -3)
+        except KeyError:
+            got = -2
+        print('registrations', r['registrations'], 'lookup', r['lookup_type'], ls, '-> impl', got, 'rule', want)
+        return 0 if got == want else 1
     if not c:
         print(json.dumps(r, indent=1))
         return 0
     cons_by_type = {t: constraints_for(t, pt)[0] for t in TYPES}
-    regs = [tuple(x) for x in c['regs']]
-    ls = {k: (tuple(v) if isinstance(v, list) else v) for k, v in c['spec'].items()}
+    regs = [tuple(x) for x in c.get('regs', [])]
+    ls = {k: (tuple(v) if isinstance(v, list) else v) for k, v in c.get('spec', c.get('layer_spec', {})).items()}
+    if c.get('registered_through') == 'predefined-patterns' or 'patterns' in c:
+        tyn = c.get('ty', c.get('type'))
+        named = {'Conv1d': ('Conv1dGeneric', 'Conv1dDW', 'Conv1d3'), 'Conv2d': ('Conv2dGeneric', 'Conv2dDW', 'Conv2d3x3')}[tyn]
+        pats = [getattr(pt, nm) for nm in named]
+        exp = (dw_readme(ls), k3_readme(ls))
+        sp = cs.CostSpec(default_behavior='fail')
+        fns = [(lambda s_: 0), (lambda s_: 1), (lambda s_: 2)]
+        for i in c.get('registration_order', (0, 1, 2)):
+            sp[pats[i]] = fns[i]
+        try:
+            o = {id(fns[0]): 10, id(fns[1]): 11, id(fns[2]): 12}.get(id(sp[(getattr(nn, tyn), ls)]), -3)
+        except KeyError:
+            o = -2
+        want = -2 if (exp[0] and exp[1]) else 11 if exp[0] else 12 if exp[1] else 10
+        print('pre-defined patterns', named, 'lookup', tyn, ls, '-> impl', o, 'documented rule', want, '(10 generic, 11 depthwise, 12 3x3, -2 conflict)')
+        return 0 if o == want else 1
     o = lookup_impl(cs, nn, regs, cons_by_type, c['default'], c['ty'], ls)
     exp = rule_py(regs, c['ty'], c['sat'])
     print('registrations', regs, 'lookup', c['ty'], ls, '-> impl', o, 'rule', exp)
